@@ -176,13 +176,23 @@ StopLoggedFails(r) ==
                  <<"StopAtFirstHit", \A i \in 1..(n - 1) : ~v[i]>>,
                  <<"StopOnlyWhenTrue", (n >= 1 /\ r.last < ExpectedLast(r)) => v[n]>> })
 
+\* The state a step starts from.  Inside a run it is the previous recorded instant; the FIRST step of a continuation starts
+\* from the live attributes of the last element as they are when run() is called (the user may have re-indexed the position
+\* or set another speed between the two calls; untouched, they equal the last sample - LiveEqualsLastSample judges that).
+PrevOf(r, ep, j) ==
+  LET P == Inst(ep, j - 1)  n == Len(P.el)  L == r.pre_live[n] IN
+  IF j = r.first /\ {"angular_position", "angular_speed", "angular_acceleration"} \subseteq DOMAIN L
+     /\ RIsNum(L.angular_position) /\ RIsNum(L.angular_speed) /\ RIsNum(L.angular_acceleration)
+  THEN [P EXCEPT !.el[n].pos = L.angular_position, !.el[n].spd = L.angular_speed, !.el[n].acc = L.angular_acceleration]
+  ELSE P
+
 (* ---- one recorded instant ---- *)
 \* P: previous instant or "none"; returns the failing clauses under the hypothesis `held'
 InstFails(r, ep, j, held) ==
   LET X == Inst(ep, j)
       first == j = r.first
       hasPrev == j > 1
-      P == IF hasPrev THEN Inst(ep, j - 1) ELSE X
+      P == IF hasPrev THEN PrevOf(r, ep, j) ELSE X
       dt == r.dt      \* the step the run was given (the spacing of the recorded axis is GridInstant's business)
       pwmF == IF first THEN r.pwm_before ELSE P.pwm IN
   IF ~CoreNums(X) \/ (hasPrev /\ ~CoreNums(P)) \/ ~RIsNum(pwmF) THEN {"NonFiniteSample"}
@@ -206,7 +216,7 @@ InstFails(r, ep, j, held) ==
 LockCands(r, ep, j, prevLk) ==
   LET first == j = r.first
       hasPrev == j > 1
-      P == IF hasPrev THEN Inst(ep, j - 1) ELSE Inst(ep, j)
+      P == IF hasPrev THEN PrevOf(r, ep, j) ELSE Inst(ep, j)
       dt == r.dt      \* the step the run was given (the spacing of the recorded axis is GridInstant's business)
       pwmF == IF first THEN r.pwm_before ELSE P.pwm
       tqF == IF first THEN r.tq_before ELSE P.el[1].T
